@@ -24,7 +24,8 @@ RULE = ('One case = a generated chart with contracts reading __old__, history st
         'driven in lock-step: identical macro steps, configurations, contexts (incl. the in-context log with the __old__ values '
         'seen by conditions), error kinds, and identical behaviour of the bound interpreter and the property statechart. '
         'Non-trivial = distinct (chart, k, method) where at k a delayed event was pending, a history memory differed from its '
-        'default, or a live __old__ snapshot existed.')
+        'default, or a live __old__ snapshot existed.  Every pickle protocol, second-generation snapshots, guards and conditions using '
+        'after()/idle(), running clocks over a scripted time source, an empty-context scenario without probes.')
 ASSUMPTIONS = ['context values are picklable (module-level functions, ints, lists)', 'snapshots are taken at macro-step boundaries only']
 REQUIRED_COUNTERS = ['second_generation_snapshots', 'empty_context_cases', 'pickle_snapshots_protocol_0_or_1', 'snapshots_with_running_clock', 'snapshots_compared', 'steps_compared_after_snapshot', 'snapshots_with_pending_delayed_event',
                      'snapshots_with_live_old', 'snapshots_with_history_memory', 'pickle_snapshots', 'deepcopy_snapshots',
